@@ -179,6 +179,16 @@ def main():
             if g.status == "unsat":
                 baseline[g.name] = smt.goal_hash(g)
         json.dump(baseline, open(baseline_p, "w"), indent=0, sort_keys=True)
+    # ---- assumed axioms are validated against CPython/numpy on every run
+    meta0 = getattr(props_mod, "META", {}) if props_mod else {}
+    axioms_report = None
+    if meta0.get("validate"):
+        pr = subprocess.run([VENV_PY, os.path.join(HERE, "bounded", "axioms_check.py"), "--which", ",".join(meta0["validate"])],
+                            capture_output=True, text=True, cwd=HERE)
+        try:
+            axioms_report = json.loads(pr.stdout.strip().splitlines()[-1])
+        except Exception:
+            axioms_report = {"n_failures": -1, "error": (pr.stdout + pr.stderr)[-500:]}
     # ---- bounded stand-in / CPython cross-check
     bounded = None if a.no_bounded else run_bounded(a.prop, a.tier, a.seed, a.repo)
     known = load_known()
@@ -227,7 +237,8 @@ def main():
                            "the bounded run of the same contract found no failing input"}, open(path, "w"), indent=1)
         vio_lines.append("VIOLATION property=%s replay=%s no-failing-input-found" % (a.prop, path))
     # ---- verdict
-    if vacuous or crash:
+    bad_axioms = bool(axioms_report) and axioms_report.get("n_failures", 0) != 0
+    if vacuous or crash or bad_axioms:
         code = 3
     elif vio_lines:
         code = 1
@@ -275,6 +286,7 @@ def main():
         "explanation": meta.get("explanation", "") or "contracts on the real functions discharged by z3/cvc5 per path and clause; "
                        "bounded run of the same clauses on the real code as stand-in / CPython cross-check",
         "known_findings_reported": known_lines,
+        "assumed_axioms_validated_natively": axioms_report,
         "exit_code": code,
     }
     if bounded and bounded.get("crash"):
@@ -293,6 +305,8 @@ def main():
         print("UNDISCHARGED %s [%s]%s" % (g.name, g.status, " (same text as baseline: solver flake)" if g in flaky else ""))
     if vacuous:
         print("CHECKER-ERROR vacuous precondition(s): %s" % vacuous)
+    if bad_axioms:
+        print("CHECKER-ERROR an assumed axiom is refuted by CPython/numpy: %s" % (axioms_report,))
     if crash:
         print("CHECKER-ERROR bounded harness crashed:\n%s" % bounded.get("stderr", ""))
     for l in known_lines:
